@@ -23,7 +23,7 @@ func init() {
 			"oracle: the Reader (or its constructor) eventually returns exactly that error value, every byte handed out before is a prefix of the true plaintext, three further Reads return the same error and no data, and the Reader does return (a source asked 1000 more times after it failed is a hang); at k = |s| a clean io.EOF is also admissible when the stream is complete; " +
 			"non-trivial = 0 < k < |s|; distinct = distinct (stream, k, with-data, source, delivery, policy)",
 		Assumptions: []string{"the source keeps returning the same error once it has failed"},
-		Quick:       TierSpec{MaxDev: -1, Shards: 4, ShardDepth: 3, BudgetS: 150},
+		Quick:       TierSpec{MaxDev: -1, Shards: 4, ShardDepth: 3, BudgetS: 600},
 		Thorough:    TierSpec{MaxDev: -1, Shards: 8, ShardDepth: 3, BudgetS: 1200},
 		Harness:     c15Harness,
 	})
